@@ -38,7 +38,7 @@ func (check) Assumptions() []string {
 		"tree-store model written from the statement (internal/model/store.go): set creates intermediates, writing past the end pads with nil, removing from a list shifts down, a primitive in the middle of a path is an error that changes nothing",
 		"Merge on a plain tree (tree.go): where both sides are containers the contents are merged into the destination's container, which stays the object it was - a handle obtained before is a live view afterwards too; a handle is only given up when the setting it views was replaced (by a primitive, by a write through a nil, by a container over a nil) or removed; nil merged onto nil is nil",
 		"a config returned by Child for a nil setting is a child config like any other: the first write through it must be visible through the parent (the nil becomes that container); of several handles taken from the same nil only the first one written through is followed",
-		"CountField(address) is asked like a getter (same options): it must find what the getters find at the address; the number for an empty container is not pinned down (0 or 1)",
+		"CountField(address) is asked like a getter (same options): it must find what the getters find at the address; the number for an empty container is not pinned down (0 or 1), except for a list (without named settings) that lost its last element through Remove in this history: 0",
 		"not demanded: error wording; negative indices (C07/C20); IsDict/IsArray for a part emptied by removals",
 		"getter conversions only on small values (boundaries are C03)",
 	}
@@ -52,9 +52,12 @@ type handle struct {
 	desc string
 	// ofNil: obtained by Child of a nil setting
 	ofNil bool
-	// born: number of the step the handle was obtained in; a handle obtained
-	// through another handle is as old as that one (it shares its fate)
+	// born: number of the step the handle was obtained in; via: the handle it
+	// was obtained through (nil: the root)
 	born int
+	via  *handle
+	// detached: an ofNil handle the library was seen not to attach on its first write
+	detached bool
 }
 
 type hist struct {
@@ -71,7 +74,9 @@ type hist struct {
 	nilOnNil   map[*model.Node]bool
 	// containers that were a nil setting until the first write through a child handle of that nil
 	wasNil map[*model.Node]bool
-	log        []string
+	// lists that lost their last element through Remove
+	emptied map[*model.Node]bool
+	log     []string
 	muts    int
 	failed  bool
 	verbose bool
@@ -122,7 +127,7 @@ func smallTree(r *rand.Rand) *model.Node {
 func (check) Run(seed int64, tier string, idx int, verbose bool) harness.Result {
 	res := harness.NewR(idx)
 	r := rand.New(rand.NewSource(harness.Mix(seed, "C12", idx)))
-	h := &hist{res: res, r: r, verbose: verbose, mergedInto: map[*model.Node]int{}, nilOnNil: map[*model.Node]bool{}, wasNil: map[*model.Node]bool{}}
+	h := &hist{res: res, r: r, verbose: verbose, mergedInto: map[*model.Node]int{}, nilOnNil: map[*model.Node]bool{}, wasNil: map[*model.Node]bool{}, emptied: map[*model.Node]bool{}}
 	switch r.Intn(8) {
 	case 0, 1:
 	case 2:
@@ -167,6 +172,9 @@ func (h *hist) step() {
 	}
 	name, idx := h.addr()
 	fs := model.ParsePath(name, idx, h.sep)
+	// what a mutation through a child handle must show through the parent
+	var mutated, firstViaNil bool
+	var mustHave [][]model.Fld
 	op := r.Intn(12)
 	switch {
 	case op < 6: // set
@@ -207,7 +215,7 @@ func (h *hist) step() {
 				return // never make a config its own descendant
 			}
 			err = t.c.SetChild(name, idx, src.c, h.o...)
-			val, what = src.n.Copy(), fmt.Sprintf("SetChild(handle %s=%s)", src.desc, src.n)
+			val, what = h.copyTree(src.n), fmt.Sprintf("SetChild(handle %s=%s)", src.desc, src.n)
 			if src.n.Kind == model.KNil {
 				val = &model.Node{Kind: model.KSub} // the config seen through a nil is an empty one
 			}
@@ -224,8 +232,8 @@ func (h *hist) step() {
 			if err == nil && r.Intn(2) == 0 {
 				// the config passed to SetChild is the child now: keep it as a live handle
 				defer func(v *model.Node) {
-					if !h.failed {
-						h.handles = append(h.handles, &handle{c: sc, n: v, desc: "setchild-handle", born: h.bornVia(t)})
+					if !h.failed && !t.detached {
+						h.handles = append(h.handles, &handle{c: sc, n: v, desc: "setchild-handle", born: h.stepNo, via: t})
 					}
 				}(val)
 			}
@@ -240,6 +248,7 @@ func (h *hist) step() {
 		if viaNil {
 			if ok {
 				h.written(t)
+				firstViaNil = true
 			} else {
 				t.n.Kind = model.KNil
 			}
@@ -253,6 +262,7 @@ func (h *hist) step() {
 		}
 		if ok {
 			h.muts++
+			mutated, mustHave = true, [][]model.Fld{fs}
 			h.res.SetAdd("op", "set")
 			// read back through the equivalent spelling
 			if h.sep != "" && idx >= 0 && name != "" {
@@ -274,9 +284,14 @@ func (h *hist) step() {
 		}
 		if want {
 			h.muts++
+			mutated = true
 			h.res.SetAdd("op", "remove")
 			if fs[len(fs)-1].IsI {
 				h.res.Ev("remove_from_list", 1)
+				if holder, e := holderOf(t.n, fs); e && len(holder.A) == 0 {
+					h.emptied[holder] = true
+					h.res.Ev("lists_emptied_by_remove", 1)
+				}
 			}
 		}
 	case op < 10: // merge (default policy)
@@ -291,9 +306,17 @@ func (h *hist) step() {
 		if t.n.Kind == model.KNil && len(sub.D)+len(sub.A) > 0 {
 			t.n.Kind = model.KSub
 			h.written(t)
+			firstViaNil = true
 		}
 		h.merge(t.n, sub)
 		h.muts++
+		mutated = true
+		for _, k := range sub.SortedKeys() {
+			mustHave = append(mustHave, []model.Fld{{Name: k}})
+		}
+		for i := range sub.A {
+			mustHave = append(mustHave, []model.Fld{{Idx: i, IsI: true}})
+		}
 		h.res.SetAdd("op", "merge")
 		for _, x := range h.live()[1:] {
 			if p, ok := pathTo(h.root.n, x.n); ok && h.underMerged(h.root.n, p, h.stepNo-1) {
@@ -312,7 +335,7 @@ func (h *hist) step() {
 			return
 		}
 		if err == nil && (node.IsSub() || node.Kind == model.KNil) && len(h.handles) < 6 {
-			x := &handle{c: ch, n: node, desc: fmt.Sprintf("h%d", h.nh), ofNil: node.Kind == model.KNil, born: h.bornVia(t)}
+			x := &handle{c: ch, n: node, desc: fmt.Sprintf("h%d", h.nh), ofNil: node.Kind == model.KNil, born: h.stepNo, via: t}
 			h.nh++
 			h.handles = append(h.handles, x)
 			h.res.Ev("child_handles", 1)
@@ -324,6 +347,18 @@ func (h *hist) step() {
 	}
 	if h.failed {
 		return
+	}
+	if firstViaNil && model.Reachable(h.root.n, t.n) {
+		// the first write through a handle of a nil setting: did the library make
+		// the handle's config the container at the nil's place? If not, that is
+		// the deviation (always this signature, whatever else happened to the
+		// place before); the history goes on with what the library really did:
+		// the parent still holds the nil, the handle is a detached config.
+		if why := h.hiddenFromParent(t, mustHave); why != "" {
+			h.note(sigChildOfNil, "%s", why)
+			h.giveUpNilView(t)
+			mutated = false
+		}
 	}
 	// frame condition: the whole tree, through the root
 	got, err := obs.Top(h.root.c)
@@ -339,6 +374,12 @@ func (h *hist) step() {
 		}
 		h.fail(sig, "tree differs after step: got %s want %s", got, want)
 		return
+	}
+	if t != h.root && mutated && model.Reachable(h.root.n, t.n) {
+		if why := h.hiddenFromParent(t, mustHave); why != "" {
+			h.fail(h.staleClass(t, "write-through-child-not-visible-in-parent"), "%s", why)
+			return
+		}
 	}
 	if t.c != h.root.c {
 		h.res.Ev("steps_through_child_handle", 1)
@@ -380,11 +421,33 @@ func (h *hist) step() {
 	}
 }
 
-func (h *hist) bornVia(t *handle) int {
-	if t != h.root {
-		return t.born
+const sigChildOfNil = "write-through-child-of-nil-setting-not-visible-in-parent"
+
+// giveUpNilView undoes, in the model, the first write through the handle t of a
+// nil setting after the library was seen not to attach it: the place holds the
+// nil again, t (a detached config from now on) and every handle obtained
+// through it are not followed any further.
+func (h *hist) giveUpNilView(t *handle) {
+	h.res.Ev("child_of_nil_not_attached_by_library", 1)
+	t.n.Kind, t.n.D, t.n.A, t.n.HasA = model.KNil, nil, nil, false
+	delete(h.wasNil, t.n)
+	keep := h.handles[:0]
+	for _, x := range h.handles {
+		if x != t && !x.obtainedThrough(t) {
+			keep = append(keep, x)
+		}
 	}
-	return h.stepNo
+	h.handles = keep
+	t.detached = true
+}
+
+func (x *handle) obtainedThrough(t *handle) bool {
+	for v := x.via; v != nil; v = v.via {
+		if v == t {
+			return true
+		}
+	}
+	return false
 }
 
 // written: the first write through a handle of a nil setting has turned the
@@ -508,7 +571,7 @@ func (h *hist) probeAt(t *handle, name string, idx int, why string) {
 			}
 			// the raw top-level names of the child, without options
 			n, err := ch.CountField(k)
-			want, lenient := wantCount(v)
+			want, lenient := h.wantCount(v)
 			if lenient && err == nil && (n == 0 || n == 1) {
 				want = n
 			}
@@ -529,7 +592,7 @@ func (h *hist) nilClass(node *model.Node, base string) string {
 		return "nil-merged-onto-nil-reads-as-object"
 	}
 	if node != nil && h.wasNil[node] {
-		return "write-through-child-of-nil-setting-not-visible-in-parent"
+		return sigChildOfNil
 	}
 	return base
 }
@@ -575,7 +638,7 @@ func (h *hist) countAt(t *handle, name string, idx int, at string) {
 		h.note(sig, "%s: CountField(%q)=(%d,%v), the tree holds %s there", at, cname, n, err, node)
 		return
 	}
-	want, lenient := wantCount(node)
+	want, lenient := h.wantCount(node)
 	if lenient && (n == 0 || n == 1) {
 		want = n
 	}
